@@ -383,11 +383,9 @@ func (db *Database) processPostingsForTerm(
 	for _, p := range postings {
 		doc := &db.Commands[p.docID]
 
-		// Platform filtering (skip if AllPlatforms is enabled)
-		if !options.AllPlatforms && len(doc.Platform) > 0 {
-			if !isPlatformCompatible(doc.Platform, currentPlatform) && !isCrossPlatformTool(doc.Command) {
-				continue
-			}
+		// Platform filtering (--platform / --all-platforms / --no-cross-platform)
+		if !passesPlatformFilter(doc, options, currentPlatform) {
+			continue
 		}
 
 		// Pipeline filtering
@@ -585,6 +583,50 @@ func isPlatformCompatible(platforms []string, current string) bool {
 		}
 	}
 	return false
+}
+
+// platformsInForce returns the platforms a search filters on: the ones the
+// user asked for, otherwise the host platform.
+func platformsInForce(options SearchOptions, currentPlatform string) []string {
+	if len(options.Platforms) == 0 {
+		return []string{currentPlatform}
+	}
+	out := make([]string, 0, len(options.Platforms))
+	for _, p := range options.Platforms {
+		p = strings.ToLower(strings.TrimSpace(p))
+		if p == "darwin" {
+			p = constants.PlatformMacOS
+		}
+		out = append(out, p)
+	}
+	return out
+}
+
+// passesPlatformFilter reports whether cmd may be returned under the platform
+// options: everything passes with AllPlatforms or when the command declares no
+// platform; otherwise one of its platforms must be a platform in force, or -
+// unless NoCrossPlatform is set - it must be tagged cross-platform or be a
+// recognised cross-platform tool.
+func passesPlatformFilter(cmd *Command, options SearchOptions, currentPlatform string) bool {
+	if options.AllPlatforms || len(cmd.Platform) == 0 {
+		return true
+	}
+	for _, want := range platformsInForce(options, currentPlatform) {
+		for _, p := range cmd.Platform {
+			if strings.EqualFold(p, want) || checkPlatformVariant(p, want) {
+				return true
+			}
+		}
+	}
+	if options.NoCrossPlatform {
+		return false
+	}
+	for _, p := range cmd.Platform {
+		if strings.EqualFold(p, "cross-platform") {
+			return true
+		}
+	}
+	return isCrossPlatformTool(cmd.Command)
 }
 
 func checkPlatformVariant(p, current string) bool {
